@@ -94,7 +94,8 @@ def run_program(chk, da, prog, sources, want, optimize):
                       signature={"class": "block-shape" if "block" in problems[0] else "metadata", "root_op": prog[0],
                                  "swv_reduction": any(q[0] == "swv" and q[4] is not None for q in nodes),
                                  "zero_length_axis": any(s == 0 for s in adv[0]),
-                                 "unstable_chunks_below_root": _unstable(prog, sources)})
+                                 "unstable_chunks_below_root": _unstable(prog, sources),
+                                 **({"call": progs.call_tag(prog, sources)} if prog[0] == "call" else {})})
     else:
         chk.traces_validated += nblocks
 
@@ -119,6 +120,8 @@ def run(chk: Check):
     for tag, prog, sources in c01.CORPUS:
         if tag in ("F17", "F20", "F25", "F33c"):
             run_program(chk, da, prog, sources, None, True)
+    # F36: topk with |k| beyond the axis length
+    run_program(chk, da, ("call", "topk", (2, 0), (("src", 0),)), [(np.ones((1, 1), dtype="int64"), ((1,), (1,)))], None, True)
     for _ in range(1500 if chk.tier == "thorough" else 200):
         prog, sources, want = progs.misaligned_take(chk.rng)
         run_program(chk, da, prog, sources, want, True)
@@ -127,4 +130,9 @@ def run(chk: Check):
         run_program(chk, da, prog, sources, want, True)
     n = 8000 if chk.tier == "thorough" else 800
     for i, (prog, sources, want) in enumerate(progs.gen_programs(chk.rng, n)):
+        run_program(chk, da, prog, sources, want, optimize=(i % 3 != 0))
+    import random as _random
+    api_rng = _random.Random(f"{chk.pid}-api-family-{chk.seed}")      # own stream: the families above keep theirs
+    for i, (prog, sources, want) in enumerate(progs.gen_api_programs(api_rng, 4000 if chk.tier == "thorough" else 450)):
+        chk.count("api-call:" + next(q[1] for q in progs.all_nodes(prog) if q[0] == "call"))
         run_program(chk, da, prog, sources, want, optimize=(i % 3 != 0))
